@@ -9,11 +9,22 @@ NT == Len(Traces)
 VARIABLES tid, l, T, done
 tvars == <<tid, l, T, done>>
 NoCall == [op |-> "none"]
-InitT(t) == [X |-> t.init.pairs, call |-> [c \in 1..t.nc |-> NoCall], known |-> {}]
+InitT(t) == [X |-> t.init.pairs, call |-> [c \in 1..t.nc |-> NoCall], known |-> {}, saved |-> <<>>]
 V(ok, Tn, why) == [ok |-> ok, T |-> Tn, why |-> why]
 Multi(op) == op \in {"update", "clear"}
 
+\* transact() blocks (C06 through Index.transact)
+BlockStep(To, e) ==
+    IF e.ret.k # "none" THEN V(FALSE, To, "C06 " \o e.op \o " of an Index block failed with " \o e.ret.k)
+    ELSE IF e.op = "txbegin" THEN V(e.pairs = To.X, [To EXCEPT !.saved = <<To.X>> \o @], "entering a block changed the contents")
+    ELSE IF To.saved = <<>> THEN V(TRUE, To, "")
+    ELSE LET Xn == IF e.op = "txraise" THEN To.saved[Len(To.saved)] ELSE To.X IN
+         IF e.pairs # Xn
+         THEN V(FALSE, To, "C06 contents after an Index block that " \o (IF e.op = "txraise" THEN "raised" ELSE "ended") \o
+                           " are not " \o (IF e.op = "txraise" THEN "those before the block: " ELSE "its operations applied: ") \o ToJson(Xn))
+         ELSE V(TRUE, [To EXCEPT !.X = Xn, !.saved = IF e.op = "txraise" THEN <<>> ELSE Tail(@)], "")
 SeqStep(To, e) ==
+    IF e.op \in {"txbegin", "txend", "txraise"} THEN BlockStep(To, e) ELSE
     LET r == IDispatch(To.X, e) IN
     IF r.ret.k # e.ret.k \/ r.ret.v # e.ret.v
     THEN V(FALSE, To, e.op \o " returned " \o ToJson(e.ret) \o "; an ordered dictionary returns " \o ToJson(r.ret))
